@@ -246,6 +246,11 @@ class BasePath(safe_str.safe_string):
             elif isinstance(real, BasePath):
                 path = real
             else:
+                # A base that is a root directory ('/', 'C:\\') already ends
+                # in a separator; don't double it.
+                sep = self._localized_sep
+                if result.startswith(sep) and real.endswith(sep):
+                    real = real[:-len(sep)]
                 result = real + result
                 break
 
